@@ -105,7 +105,8 @@ def check_case(ctx, g, model=None, thr=None, exact_ok=True, limit=10.0):
                   expect=r_np, inp={"game": gen.desc(g)}, suite="exact.reach",
                   cmp=wire.measure_dev(ctx, "float_vs_exact_max_abs_dev", "probs", "probs"))
     if model is not None:
-        digits = r_np.get("floor", 6)
+        import math as _m
+        digits = round(-_m.log10(t))           # documented precision for a threshold 10^-k
         for prune, r in ((False, r_np), (True, r_p)):
             model.add("reach", dict(wire.game_payload(g, thr=t), prune=prune, digits=digits),
                       expect=r, inp={"game": gen.desc(g)} if small else {"meta": g.get("_meta")},
@@ -152,6 +153,11 @@ def run(ctx, model=None):
         _pool.append(gen.stopping_game(_r2, n_inner=_r2.randint(2, 5), dead_frac=_r2.choice([0.0, 0.6])))
     for _k in range(4 if ctx.quick() else 40):
         _an.batch_vs_alone(ctx, _r2.sample(_pool, _r2.randint(2, 5)), ['probabilities'], 'run_games-probabilities-equal-solo-run')
+    for k in range(10 if ctx.quick() else 150):
+        check_case(ctx, gen.with_empty_action(gen.free_game(rng), rng), model)
+        check_case(ctx, gen.corridor_choice_game(rng), model)
+        with impl.forced_debug():
+            check_case(ctx, gen.all_dead_game(rng), model)
     # thresholds
     for k in range(20 if ctx.quick() else 300):
         g = gen.stopping_game(rng, extra_finals=0.25)
